@@ -245,6 +245,11 @@ def run(ctx):
                 nchunk = 4 if mname == "burgers" else 1
                 for c in range(nchunk):
                     cfg.append((mname, "muscl:" + lim, cfl, S, (1.0,), tot * c // nchunk, tot * (c + 1) // nchunk))
+        # the same letters at an amplitude of 1e-12 (and 1e+9): gradients far below / above any absolute constant of a limiter
+        for lim in space.LIMITERS:
+            for amp in (1e-12, 1e9):
+                Sa = [amp * x for x in space.S_QUICK]
+                cfg.append((mname, "muscl:" + lim, 0.5, Sa, (1.0,), 0, len(Sa) ** 5))
         for cfl in (1.0, 0.5):
             if mname == "burgers":
                 cfg.append((mname, "extrapol1", cfl, S, (1.0,), 0, len(S) ** 3))
